@@ -361,8 +361,9 @@ def reviewedGuards : List (String × String × String × String × String) := [
   ("src/fqe/hamiltonians/restricted_hamiltonian.py", "RestrictedHamiltonian.__init__", "raise", "ValueError", "matrix.ndim % 2"),
   ("src/fqe/hamiltonians/restricted_hamiltonian.py", "RestrictedHamiltonian.__init__", "assert", "AssertionError", "self._tensor"),
   ("src/fqe/hamiltonians/sparse_hamiltonian.py", "SparseHamiltonian.dim", "raise", "NotImplementedError", "unconditional"),
-  ("src/fqe/_fqe_control.py", "get_hamiltonian_from_openfermion", "assert", "AssertionError", "isinstance(ops, FermionOperator)")
-]
+  ("src/fqe/_fqe_control.py", "get_spin_conserving_wavefunction", "raise", "ValueError", "not param"),
+  ("src/fqe/_fqe_control.py", "get_number_conserving_wavefunction", "raise", "ValueError", "not param"),
+  ("src/fqe/_fqe_control.py", "get_hamiltonian_from_openfermion", "assert", "AssertionError", "isinstance(ops, FermionOperator)")]
 
 set_option maxRecDepth 100000 in
 /-- every guard present in the current sources is a reviewed one with the reviewed condition and exception class, and
@@ -386,7 +387,7 @@ theorem C14_modelled_guards_present : modelledGuards.all (fun g => GenGuards.inv
 /-! ### branch skeleton of the transcribed function (regenerated by harness/translate/guards.py) -/
 
 /-- the guards of `Wavefunction.apply` in the order Model/Guards.lean `admitApply` transcribes them (conservation flags first, then the dimension) -/
-def C14_apply_skeletonReviewed : List String := ["if not self._conserve_number or not hamil.conserve_number()", "if self._conserve_number", "raise TypeError", "endif", "if hamil.conserve_number()", "raise TypeError", "endif", "endif", "if isinstance(hamil, sparse_hamiltonian.SparseHamiltonian)", "else", "if self._conserve_spin and (not self._conserve_number)", "else", "endif", "if isinstance(hamil, diagonal_hamiltonian.Diagonal)", "else", "if isinstance(hamil, diagonal_coulomb.DiagonalCoulomb)", "else", "if isinstance(hamil, restricted_hamiltonian.RestrictedHamiltonian)", "else", "endif", "if hamil.dim() != expected", "raise ValueError", "endif", "endif", "endif", "if self._conserve_spin and (not self._conserve_number)", "endif", "endif", "return"]
+def C14_apply_skeletonReviewed : List String := ["if not self._conserve_number or not hamil.conserve_number()", "if self._conserve_number", "raise TypeError", "endif", "if hamil.conserve_number()", "raise TypeError", "endif", "endif", "if isinstance(hamil, sparse_hamiltonian.SparseHamiltonian)", "if hamil.nterms() == 0", "else", "endif", "else", "if self._conserve_spin and (not self._conserve_number)", "else", "endif", "if isinstance(hamil, diagonal_hamiltonian.Diagonal)", "else", "if isinstance(hamil, diagonal_coulomb.DiagonalCoulomb)", "else", "if isinstance(hamil, restricted_hamiltonian.RestrictedHamiltonian)", "else", "endif", "if hamil.dim() != expected", "raise ValueError", "endif", "endif", "endif", "if self._conserve_spin and (not self._conserve_number)", "endif", "endif", "return"]
 
 set_option maxRecDepth 100000 in
 theorem C14_apply_skeleton : (GenGuards.decisionSkeleton.find? (fun e => e.1 == "src/fqe/wavefunction.py" && e.2.1 == "Wavefunction.apply")).map (·.2.2) =
